@@ -202,7 +202,7 @@ def _gen_cases(ctx):
           yield dict(kind='gen', workers=w, tasks=[dict(k=(idx + j) % 2, rc=X.FALSY[(idx + wi + j) % len(X.FALSY)])
                                                    for j in range(nt)],
                      plans=plans, threshold=(0 if (idx + len(f)) % 4 == 0 else 3))
-  for _ in range(60 if quick else 3000):
+  for _ in range(60 if quick else 1200):
     w = rng.choice([1, 2, 2, 3])
     nt = rng.randrange(1, 5)
     plans = [['ok'] * 6 for _ in range(w)]
@@ -217,7 +217,7 @@ def _gen_cases(ctx):
                        [(s, n, p) for s in (2, 3) for n in (4, 5, 7) for p in ('p0', 'p1', 'p2', 'p3')]):
     yield dict(kind='shutdown', workers=2, shards=s, n=n, pipe=pipe, plans=[[], []], threshold=999999)
   # --- reply latency / reply order as an environment choice
-  for _ in range(30 if quick else 1500):
+  for _ in range(30 if quick else 500):
     w = rng.choice([2, 2, 3])
     s = rng.choice([1, 2, 3])
     n = rng.randrange(max(1, s - 1), s + 4)
@@ -249,6 +249,28 @@ def _strip(p):
 # ------------------------------------------------------------------------------------------ real code
 
 def run_impl(case):
+  """One run; a run reported as HANG although a worker stays usable is run once more with a three times longer
+  wall-clock limit before it counts: 'hang' is decided by a wall-clock guard, and on a heavily loaded machine a
+  long-lived pool process can exceed 8 s without hanging (seen once in 18853 thorough-tier cases, not reproducible in
+  ~2000 replays).  A real hang hangs again; a hang that does not repeat is recorded in the observation
+  (`hang_not_reproduced`) and counted in the evidence."""
+  global TIMEOUT
+  obs = _run_impl(case)
+  if isinstance(obs, dict) and obs.get('outcome') == 'hang' and case['kind'] in ('sharded', 'gen', 'shutdown') \
+      and usable_by_plan(case['plans'], case['workers']):
+    old = TIMEOUT
+    TIMEOUT = 3 * old
+    try:
+      obs2 = _run_impl(case)
+    finally:
+      TIMEOUT = old
+    if obs2.get('outcome') != 'hang':
+      obs2['hang_not_reproduced'] = 1
+      return obs2
+  return obs
+
+
+def _run_impl(case):
   kind = case['kind']
   if kind in ('sharded', 'f21', 'shutdown'):
     obs = run_shutdown(case) if kind == 'shutdown' else run_sharded(case)
@@ -811,6 +833,8 @@ def _cover(case, obs):
       _ARMS['shutdown:next-answered-while-shutting-down'] += 1
     if obs['outcome'] == 'returned':
       _ARMS['shutdown:run-completed'] += 1
+  if obs.get('hang_not_reproduced'):
+    _ARMS['(hang not reproduced with a 3x longer limit)'] += 1
   if obs.get('delayed'):
     _ARMS['latency:reply-held-back'] += 1
   if kind == 'sharded' and case.get('pipe') in ('p3', 'p4') and obs['outcome'] == 'returned':
